@@ -90,6 +90,11 @@ def make_exc(outcome):
     return kind("body")
 
 
+# the generator function's own keyword parameters may be named like anything, also like the parameters of the
+# machinery that carries them to it
+KW = {"func": "F", "self": "S", "args": "A", "kwds": "K", "gen": "G", "cls": "C"}
+
+
 def cases(tier, seed, shard, nshards):
     idx = 0
     for pre, handler, after, outcome in itertools.product(PRE, HANDLER, AFTER, OUTCOME):
@@ -210,7 +215,7 @@ def trial(factory, case):
     async def decorated_form():
         # the manager as a decorator: every call of the function runs inside a context of its own, the call's
         # result is handed through, and a failure that the generator swallows makes the call return None
-        @cm(1, k=2)
+        @cm(1, k=2, **KW)
         async def fn(a, b=None):
             log.append(("entered", a, b))
             if exc is not None:
@@ -222,7 +227,7 @@ def trial(factory, case):
     async def mixed_form(decorate_first):
         # ONE manager object used both ways: first as a decorator (each call gets a context of its own), then
         # directly in a with statement (which uses the object's own generator, untouched by the calls)
-        manager = cm(1, k=2)
+        manager = cm(1, k=2, **KW)
 
         @manager
         async def fn(a, b=None):
@@ -250,7 +255,7 @@ def trial(factory, case):
             return await decorated_form()
         if case.get("mode") in ("decorate_then_enter", "enter_then_decorate"):
             return await mixed_form(case["mode"] == "decorate_then_enter")
-        manager = cm(1, k=2)
+        manager = cm(1, k=2, **KW)
         try:
             async with manager as v:
                 log.append(("entered", v))
@@ -295,7 +300,7 @@ def reference_generatorexit(case):
         await gen.aclose()
         raise exc
 
-    gen = genf(1, k=2)
+    gen = genf(1, k=2, **KW)
 
     async def body():
         if case.get("mode") != "reuse":
